@@ -218,7 +218,8 @@ class Report:
         for k in self.known:
             print(k)
         seen = set()
-        for path, nofound in self.violations[:20]:
+        # violations that come with a concrete failing input are printed first (at most 20 lines in all)
+        for path, nofound in sorted(self.violations, key=lambda t: t[1])[:20]:
             if path in seen:
                 continue
             seen.add(path)
